@@ -32,6 +32,11 @@ type PatSpec struct {
 	Auths    []string `json:"auths,omitempty"`
 	Apply    string   `json:"apply,omitempty"`  // "", "ok", "fail", "failnotfound", "failreserr", "nochange"
 	Listen   int      `json:"listen,omitempty"` // number of listeners
+	// Cross: the Listeners map of this pattern's handler also has entries
+	// for the other patterns of its Mux (listener 3 there); Extra3 marks
+	// those patterns
+	Cross  bool `json:"cross,omitempty"`
+	Extra3 bool `json:"extra3,omitempty"`
 	Nest     bool     `json:"nest,omitempty"`   // listener 0 emits a nested custom event on the same resource
 }
 
@@ -429,9 +434,20 @@ func (e *Engine) options(pi int, p *PatSpec) []res.Option {
 		opts = append(opts, res.Group(p.Group))
 	}
 	opts = append(opts, e.applyOptions(pi, p)...)
-	if p.Listen > 0 {
+	if p.Listen > 0 || p.Cross {
 		ls := map[string]func(*res.Event){}
-		ls[p.Pattern] = func(ev *res.Event) { e.listener(pi, 0, ev) }
+		if p.Listen > 0 {
+			ls[p.Pattern] = func(ev *res.Event) { e.listener(pi, 0, ev) }
+		}
+		if p.Cross {
+			for j := range e.Case.Pats {
+				q := &e.Case.Pats[j]
+				if j != pi && q.Extra3 && strings.Join(q.Mounts, "/") == strings.Join(p.Mounts, "/") {
+					j := j
+					ls[q.Pattern] = func(ev *res.Event) { e.listener(j, 3, ev) }
+				}
+			}
+		}
 		opts = append(opts, res.OptionFunc(func(h *res.Handler) { h.Listeners = ls }))
 	}
 	return opts
